@@ -13,7 +13,7 @@ use nom::{
     branch::alt,
     bytes::complete::{tag, take_until},
     character::complete::{char, multispace1},
-    combinator::{into, map, opt, recognize},
+    combinator::{into, map, opt, recognize, verify},
     multi::{many0, many1},
     sequence::{delimited, pair, preceded, terminated},
     Parser,
@@ -269,7 +269,11 @@ fn top_level_information_object_declaration(
         skip_ws(many0(comment)),
         skip_ws(context_boundary(identifier)),
         skip_ws(opt(parameterization)),
-        skip_ws(uppercase_identifier),
+        // the governing class is named by an object class reference: a reserved word such as `REAL`
+        // is a built-in type, which makes the assignment a value assignment
+        skip_ws(verify(uppercase_identifier, |class: &str| {
+            !ASN1_KEYWORDS.contains(&class) || [ABSTRACT_SYNTAX, TYPE_IDENTIFIER].contains(&class)
+        })),
         preceded(assignment, information_object),
     ))
     .parse(input)
